@@ -73,7 +73,9 @@ class URI(Signature):
 
     @uri.register(bytearray)
     def uri_bytearray(self, val):
-        self.uri = val.decode('latin-1')
+        # text in subpackets is UTF-8 (RFC 4880, 5.2.3.x); octets that are not valid UTF-8 become surrogate
+        # escapes, so that what was read is what is written back
+        self.uri = val.decode('utf-8', 'surrogateescape')
 
     def __init__(self):
         super(URI, self).__init__()
@@ -81,7 +83,7 @@ class URI(Signature):
 
     def __bytearray__(self):
         _bytes = super(URI, self).__bytearray__()
-        _bytes += self.uri.encode()
+        _bytes += self.uri.encode('utf-8', 'surrogateescape')
         return _bytes
 
     def parse(self, packet):
@@ -432,7 +434,7 @@ class RegularExpression(Signature):
 
     @regex.register(bytearray)
     def regex_bytearray(self, val):
-        self.regex = val.decode('latin-1')
+        self.regex = val.decode('utf-8', 'surrogateescape')
 
     def __init__(self):
         super(RegularExpression, self).__init__()
@@ -440,7 +442,7 @@ class RegularExpression(Signature):
 
     def __bytearray__(self):
         _bytes = super(RegularExpression, self).__bytearray__()
-        _bytes += self.regex.encode()
+        _bytes += self.regex.encode('utf-8', 'surrogateescape')
         return _bytes
 
     def parse(self, packet):
@@ -645,7 +647,7 @@ class NotationData(Signature):
 
     @name.register(bytearray)
     def name_bytearray(self, val):
-        self.name = val.decode('latin-1')
+        self.name = val.decode('utf-8', 'surrogateescape')
 
     @sdproperty
     def value(self):
@@ -659,7 +661,7 @@ class NotationData(Signature):
     @value.register(bytearray)
     def value_bytearray(self, val):
         if NotationDataFlags.HumanReadable in self.flags:
-            self.value = val.decode('latin-1')
+            self.value = val.decode('utf-8', 'surrogateescape')
 
         else:  # pragma: no cover
             self._value = val
@@ -674,8 +676,8 @@ class NotationData(Signature):
         _bytes = super(NotationData, self).__bytearray__()
         _bytes += self.int_to_bytes(sum(self.flags)) + b'\x00\x00\x00'
         # the two length fields count octets of the encoded name and value, not characters
-        name = self.name.encode()
-        value = self.value if isinstance(self.value, bytearray) else self.value.encode()
+        name = self.name.encode('utf-8', 'surrogateescape')
+        value = self.value if isinstance(self.value, bytearray) else self.value.encode('utf-8', 'surrogateescape')
         _bytes += self.int_to_bytes(len(name), 2)
         _bytes += self.int_to_bytes(len(value), 2)
         _bytes += name
@@ -778,7 +780,7 @@ class SignersUserID(Signature):
 
     @userid.register(bytearray)
     def userid_bytearray(self, val):
-        self.userid = val.decode('latin-1')
+        self.userid = val.decode('utf-8', 'surrogateescape')
 
     def __init__(self):
         super(SignersUserID, self).__init__()
@@ -786,7 +788,7 @@ class SignersUserID(Signature):
 
     def __bytearray__(self):
         _bytes = super(SignersUserID, self).__bytearray__()
-        _bytes += self.userid.encode()
+        _bytes += self.userid.encode('utf-8', 'surrogateescape')
         return _bytes
 
     def parse(self, packet):
@@ -822,7 +824,7 @@ class ReasonForRevocation(Signature):
 
     @string.register(bytearray)
     def string_bytearray(self, val):
-        self.string = val.decode('latin-1')
+        self.string = val.decode('utf-8', 'surrogateescape')
 
     def __init__(self):
         super(ReasonForRevocation, self).__init__()
@@ -832,7 +834,7 @@ class ReasonForRevocation(Signature):
     def __bytearray__(self):
         _bytes = super(ReasonForRevocation, self).__bytearray__()
         _bytes += self.int_to_bytes(self.code)
-        _bytes += self.string.encode()
+        _bytes += self.string.encode('utf-8', 'surrogateescape')
         return _bytes
 
     def parse(self, packet):
